@@ -36,6 +36,11 @@ struct Counts {
     fired: bool,
 }
 
+thread_local! {
+    /// display mode for the runs of the current case (single_result flag of DisplayOptions)
+    static SINGLE_RESULT: std::cell::Cell<bool> = std::cell::Cell::new(true);
+}
+
 fn run_with(tables: &Tables, stmt_text: &str, files: &[&[u8]], intr: &Interrupt) -> (Outcome<FileRun>, Counts) {
     let st = sut::parse(stmt_text).expect(stmt_text);
     let running = Arc::new(AtomicBool::new(true));
@@ -65,7 +70,7 @@ fn run_with(tables: &Tables, stmt_text: &str, files: &[&[u8]], intr: &Interrupt)
         }
         Action::Continue
     }));
-    let opts = FileRunOpts { running: running.clone(), interrupt_after_printed: if let Interrupt::AfterPrinted(n) = intr { Some(*n) } else { None }, ..Default::default() };
+    let opts = FileRunOpts { single_result: SINGLE_RESULT.with(|s| s.get()), running: running.clone(), interrupt_after_printed: if let Interrupt::AfterPrinted(n) = intr { Some(*n) } else { None }, ..Default::default() };
     let out = sut::run_files(tables, &st, files, opts);
     verif_hooks::clear();
     let c = counts.borrow().clone();
@@ -148,7 +153,12 @@ fn files_from_bytes(lines: &[&[u8]], parts: &[usize]) -> Vec<Vec<u8>> {
 }
 
 fn nonblank(v: &[String]) -> Vec<String> {
-    v.iter().filter(|l| !l.is_empty()).cloned().collect()
+    // in multi-result display mode the blank separator lines are part of the output that must stay a prefix
+    if SINGLE_RESULT.with(|s| s.get()) {
+        v.iter().filter(|l| !l.is_empty()).cloned().collect()
+    } else {
+        v.to_vec()
+    }
 }
 
 fn check_group(w: &World, si: usize, seq: &[u8], parts: &[usize], only: Option<&Interrupt>) -> (Vec<Failure>, u64, u64, u64) {
@@ -308,6 +318,18 @@ pub fn run(ctx: &Ctx) -> i32 {
         let si = (idx % nst) as usize;
         let seq = seq_decode(idx / nst, k, maxlen);
         for parts in splits(seq.len(), 2, true) {
+            // join statements are also run in multi-result display mode (blank separator after every multi-row batch)
+            if w.stmts[si].contains("JOIN") && !w.stmts[si].contains("COUNT") && parts.len() == 1 {
+                SINGLE_RESULT.with(|s| s.set(false));
+                let (fs, evals, _, _) = check_group(&w, si, &seq, &parts, None);
+                SINGLE_RESULT.with(|s| s.set(true));
+                col.eval(evals);
+                for mut f in fs {
+                    f.signature = format!("{}:multi-result-display", f.signature);
+                    f.case["single_result"] = json!(false);
+                    col.fail(f);
+                }
+            }
             let (fs, evals, nt, pts) = check_group(&w, si, &seq, &parts, None);
             col.eval(evals);
             col.states.fetch_add(evals * (pts + 1), Ordering::Relaxed);
@@ -379,6 +401,7 @@ pub fn replay(case: &J) -> Vec<Failure> {
     let parts: Vec<usize> = case["parts"].as_array().unwrap().iter().map(|x| x.as_u64().unwrap() as usize).collect();
     let s = case["interrupt"].as_str().unwrap_or("");
     let num: usize = s.chars().filter(|c| c.is_ascii_digit()).collect::<String>().parse().unwrap_or(0);
+    SINGLE_RESULT.with(|x| x.set(case["single_result"].as_bool().unwrap_or(true)));
     let intr = if s.starts_with("BeforeBatchLoad") { Interrupt::BeforeBatchLoad(num) } else if s.starts_with("BeforeJoinLoad") { Interrupt::BeforeJoinLoad(num) } else { Interrupt::AfterPrinted(num) };
     check_group(&w, case["stmt"].as_u64().unwrap() as usize, &seq, &parts, Some(&intr)).0
 }
